@@ -166,3 +166,17 @@ package ucon
 //@ assert before call (*VotesWrapper).newVote: [counted-for-the-message] a1 == msg.Round && a2 == msg.RoundIndex && a3 == voteType && a6 == msg.BlockHash
 //@ assert before call (*VotesWrapper).newVote: [counted-weight-is-verified-weight] a7.Votes == c03SortVotes
 //@ assert before call (*Voter).judgeVoteCount: [judge-the-counted-block] a2 == totalCount && a4 == msg.BlockHash && a1 == voteType && add
+
+// ---------------------------------------------------------------------------------------------------------
+// The per-block quorum flags (voteOver) are facts about ONE (round, round index): whenever the voter's position changes
+// they must be discarded, otherwise a precommit quorum counted in round index i would let the certificate quorum alone
+// trigger a commit in round index i+1.
+//@ ghost var c03FlagsReset: bool
+//@ func (*Voter).updateContext props C03
+//@ requires [nonnil] v != nil
+//@ modifies all, c03FlagsReset
+//@ ghost at entry: c03FlagsReset := false
+//@ ghost after store voteOver: c03FlagsReset := true
+//@ assert after store voteOver: [fresh-empty-flags] fresh(v.voteOver) && len(v.voteOver) == 0
+//@ assert before call (*VoteDB).UpdateContext: [quorum-flags-reset-on-new-position]
+//@        (old(v.round) == nil || old(big(v.round)) != old(big(ev.Round)) || old(v.roundIndex) != ev.RoundIndex) ==> c03FlagsReset
